@@ -428,6 +428,10 @@ class LSym:
             return tot
         if (pa - pb).is_zero(): return ZERO
         if self.is_bool(pa) and self.is_bool(pb): return pa + pb - (pa * pb).scale(2)
+        ra, rb = self.ctx.resolve(pa), self.ctx.resolve(pb)
+        la, ha = self.ctx.interval(ra); lb, hb = self.ctx.interval(rb)
+        if la >= 0 and ha < (1 << min(rb.tz(), 4096)): return pa + pb      # disjoint bit supports: xor = add
+        if lb >= 0 and hb < (1 << min(ra.tz(), 4096)): return pa + pb
         return XorNode(pa, pb, w)
 
     def icmp(self, pred, ty, a, b):
